@@ -1858,7 +1858,12 @@ class StrProfile(Translator):
         self.em = em
         self.inout = None
         params = []
+        self.is_fmt = f.name == "fmt" and len(f.params) == 1 and "Formatter" in f.params[0][1]
         for pn, pt in f.params:
+            if self.is_fmt:
+                # `Display::fmt`: the formatter is the output; the function returns the text written to it
+                self.formatter = pn
+                continue
             t = self.lean_type(pt)
             if "mut" in pt and "[u8]" in pt.replace(" ", ""):
                 self.inout = pn
@@ -1867,7 +1872,9 @@ class StrProfile(Translator):
                 params.append(f"({lname(pn)} : {t})")
         self.has_self = f.self_kind is not None
         self.mutself = f.self_kind == "mut"
-        ret = self.lean_type(f.ret) if f.ret else "Unit"
+        ret = "ByteArray" if self.is_fmt else (self.lean_type(f.ret) if f.ret else "Unit")
+        if f.ret and f.ret.replace(" ", "").replace("'a", "").replace("'_", "") in ("&str", "&mutstr"):
+            ret = "ByteArray"      # a returned `&str` is represented by its bytes
         self.result_ret = bool(f.ret) and "Result<" in f.ret.replace(" ", "")
         self.ret_unit = ret == "Unit"
         self.bool_ret = False
@@ -1880,7 +1887,8 @@ class StrProfile(Translator):
             parts.append(self.paren_ty(ret))
         full = " × ".join(parts) if parts else "Unit"
         state = " (value0 : ByteArray)" if self.mutself else (" (value : ByteArray)" if self.has_self else "")
-        hdr = f"def {fi.lean_name} {self.PRE_PARAMS}{state}" + "".join(" " + p for p in params) + f" :\n    Option ({full}) := do"
+        pre = self.PRE_PARAMS + (" (lossy : ByteArray → ByteArray)" if self.is_fmt else "")
+        hdr = f"def {fi.lean_name} {pre}{state}" + "".join(" " + p for p in params) + f" :\n    Option ({full}) := do"
         if self.mutself:
             em.w("let mut value := value0")
             self.env[0]["value"] = "value"
@@ -1915,6 +1923,13 @@ class StrProfile(Translator):
         e0 = e
         while e0.kind == "paren":
             e0 = e0.e
+        if getattr(self, "is_fmt", False):
+            # the tail must hand the text to the formatter in one piece: `formatter.write_str(&x)`
+            if not (e0.kind == "mcall" and e0.name == "write_str" and e0.recv.kind == "path" and e0.recv.path == [self.formatter] and len(e0.args) == 1):
+                raise Untranslatable("Display::fmt: expected `formatter.write_str(&text)` as the result")
+            v = self.ex(e0.args[0], hoist=True)
+            self.em.w(f"return {self.ret_value(v)}")
+            return
         # tail `str::from_utf8(x)` of a function returning Result<&str, _>
         if e0.kind == "call" and e0.f.kind == "path" and e0.f.path[-1] == "from_utf8":
             x = self.ex(e0.args[0], hoist=True)
@@ -1973,6 +1988,14 @@ class StrProfile(Translator):
             hi_t = self.ex(hi, hoist) if hi is not None else f"{self.atom(b)}.size"
             self.em.w(f"if ¬ ({lo_t} ≤ {hi_t} ∧ {hi_t} ≤ {self.atom(b)}.size) then failure")
             return f"{self.atom(b)}.extract {self.atom(lo_t)} {self.atom(hi_t)}"
+        if k == "call" and e.f.kind == "path" and e.f.path[-1] in ("from_utf8_unchecked", "from_utf8_unchecked_mut") and len(e.args) == 1:
+            return self.ex(e.args[0], hoist)   # a `&str` is represented by its bytes: the unchecked conversion is the identity on them
+        if k == "path" and e.path == ["self"] and getattr(self, "has_self", False):
+            return "value"                      # `self` where a `&str` is expected: `Deref`, i.e. the payload
+        if k == "call" and e.f.kind == "path" and e.f.path[-1] == "from_utf8_lossy" and len(e.args) == 1:
+            if not getattr(self, "is_fmt", False):
+                raise Untranslatable("from_utf8_lossy outside Display::fmt")
+            return f"lossy {self.atom(self.ex(e.args[0], hoist))}"
         if k == "chr":
             if e.val in ("b'\\0'",):
                 return "0"
@@ -2131,8 +2154,8 @@ class StrProfile(Translator):
         super().let_stmt(s)
 
 
-PSTR_FUNCS = {n: n for n in ["from_bytes_unchecked", "from_bytes", "from_bytes_mut", "new_unchecked", "new", "copy_from_slice", "copy_from_str", "size"]}
-PODSTR_FUNCS = {"copy_from_slice": "copy_from_slice", "copy_from_str": "copy_from_str", "as_str": "as_str", "from": "from_str"}
+PSTR_FUNCS = {n: n for n in ["from_bytes_unchecked", "from_bytes", "from_bytes_mut", "new_unchecked", "new", "copy_from_slice", "copy_from_str", "size", "deref", "deref_mut", "as_str"]}
+PODSTR_FUNCS = {"copy_from_slice": "copy_from_slice", "copy_from_str": "copy_from_str", "as_str": "as_str", "from": "from_str", "fmt": "fmt", "as_str_unchecked": "as_str_unchecked", "default": "default_value"}
 
 STR_HEADER = '''/-
   GENERATED by tools/rust2lean.py from {path} — do not edit.
@@ -2277,7 +2300,18 @@ def gen_pod():
             emit(nm, f"/-- `PodOption::{f.name}` (line {f.src_line}). -/\ndef {nm} (isSome isNone : ByteArray → Bool) (inner : ByteArray) : Option ByteArray :=\n  if {pred} then {arm(e.then)} else {arm(e.els)}")
         except (Untranslatable, ParseError) as ex:
             fail(nm, str(ex))
-    for want in ("option_value", "option_value_mut"):
+    for f in fns:
+        if f.name != "new" or f.body is None or len(f.params) != 1:
+            continue
+        try:
+            e = single(f.body)
+            pn = f.params[0][0]
+            if not (e.kind == "call" and is_path(e.f, "Self") and len(e.args) == 1 and is_path(strip(e.args[0]), pn)):
+                raise Untranslatable("expected Self(value)")
+            emit("option_new", f"/-- `PodOption::new` (line {f.src_line}): the wrapper is its inner value (`repr(C)`, one field). -/\ndef option_new ({pn} : ByteArray) : ByteArray := {pn}")
+        except (Untranslatable, ParseError) as ex:
+            fail("option_new", str(ex))
+    for want in ("option_value", "option_value_mut", "option_new"):
         if want not in report["translated"] and want not in report["untranslatable"]:
             report["missing"].append(want)
 
@@ -2307,6 +2341,228 @@ def gen_pod():
             report["missing"].append(want)
     text = POD_HEADER + "\n\n".join(defs) + "\n\nend GenPod\nend Stevia\n"
     write_if_changed(os.path.join(GEN, "Pod.lean"), text)
+    return report
+
+
+VIEWS_HEADER = """/-
+  GENERATED by tools/rust2lean.py from the `from_bytes` / `from_bytes_mut` / `data_len` functions of
+  src/collections/{avl_tree,u8_avl_tree,hash_set,array_set}.rs — do not edit.
+  The byte-level preamble of every view constructor: where the buffer is split, which checked casts guard the two
+  parts, and that the handle keeps exactly those two parts (`Self { header, records }`, nothing derived).
+  `H` = `size_of` of the header type (`Allocator`, resp. the length prefix), `R` = `size_of` of one record
+  (`Node<..>`, resp. one value). `split_at(n)` panics unless `n <= len`; `bytemuck::from_bytes` refuses a slice whose
+  length is not `H`; `bytemuck::cast_slice` refuses a length that is not a multiple of `R` (`castOk`). Alignment of
+  the casts is not modelled (the harness runs every scope from differently aligned addresses).
+  The statements of the tree's `from_bytes_mut` after this preamble (capacity re-synchronisation) are translated in
+  `Avl*Open.lean`. `Stevia/Proofs/GenViews.lean` proves every definition equal to `View.split` / `View.dataLen`.
+-/
+import Stevia.Model.Views
+
+namespace Stevia
+namespace GenV
+set_option linter.unusedVariables false
+
+"""
+
+
+def gen_views():
+    """Byte-level preamble of the view constructors and `data_len` (see VIEWS_HEADER)."""
+    report = {"source": "src/collections/*.rs (from_bytes, from_bytes_mut, data_len)", "namespace": "GenV", "translated": [], "untranslatable": {}, "missing": []}
+    defs = []
+    HDR_TYPES = ("Allocator", "U8Allocator", "$prefix_type")
+
+    def size_sym(generics):
+        g = (generics or "").replace(" ", "")
+        if g in HDR_TYPES:
+            return "H"
+        if re.fullmatch(r"(U8)?Node<[A-Z](,[A-Z])?>", g):
+            return "R"
+        raise Untranslatable(f"size_of::<{g}> is neither the header nor the record type")
+
+    def expr(e, names):
+        """usize arithmetic over `capacity` and size_of (data_len)"""
+        if e.kind == "paren":
+            return "(" + expr(e.e, names) + ")"
+        if e.kind == "bin" and e.op in ("+", "*"):
+            return f"{expr(e.l, names)} {e.op} {expr(e.r, names)}"
+        if e.kind == "path" and len(e.path) == 1 and e.path[0] in names:
+            return e.path[0]
+        if e.kind == "call" and e.f.kind == "path" and e.f.path[-1] == "size_of" and not e.args:
+            return size_sym(e.f.generics)
+        if e.kind == "cast" and getattr(e, "ty", "").replace(" ", "") == "usize":
+            return expr(e.e, names)
+        raise Untranslatable(f"unsupported expression ({e.kind}) in data_len")
+
+    def is_name(e, env):
+        return e.kind == "path" and len(e.path) == 1 and e.path[0] in env
+
+    def cast_of(e, env):
+        """bytemuck::from_bytes[_mut](x) / bytemuck::cast_slice[_mut](x) over a bound slice -> (role, x)"""
+        if e.kind == "call" and e.f.kind == "path" and e.f.path[0] == "bytemuck" and len(e.args) == 1 and is_name(e.args[0], env):
+            fn = e.f.path[-1]
+            g = (e.f.generics or "").replace(" ", "")
+            if fn in ("from_bytes", "from_bytes_mut"):
+                if g and g not in HDR_TYPES:
+                    raise Untranslatable(f"bytemuck::{fn}::<{g}>: not the header type")
+                return "hdr", e.args[0].path[0]
+            if fn in ("cast_slice", "cast_slice_mut"):
+                return "recs", e.args[0].path[0]
+        return None
+
+    def view(f, prefix, allow_rest):
+        lines = []
+        env = {}      # name -> role: raw | hdr | recs
+        bytes_name = f.params[0][0]
+        if len(f.params) != 1 or "u8" not in f.params[0][1]:
+            raise Untranslatable("expected a single byte-slice parameter")
+        stmts = list(f.body.stmts)
+        i = 0
+        while i < len(stmts):
+            st = stmts[i]
+            if st.kind != "let":
+                break
+            init = st.init
+            if init.kind == "mcall" and init.name in ("split_at", "split_at_mut") and init.recv.kind == "path" and init.recv.path == [bytes_name]:
+                if env:
+                    raise Untranslatable("buffer split twice")
+                if st.pat.kind != "ptuple" or len(st.pat.items) != 2 or any(x.kind != "pident" for x in st.pat.items):
+                    raise Untranslatable("split_at: expected a pair pattern")
+                a = init.args[0]
+                if not (a.kind == "call" and a.f.kind == "path" and a.f.path[-1] == "size_of" and not a.args and size_sym(a.f.generics) == "H"):
+                    raise Untranslatable("split point is not size_of::<header type>()")
+                x, y = st.pat.items[0].name, st.pat.items[1].name
+                lines.append(f"  if ¬ (H ≤ {bytes_name}.size) then failure")
+                lines.append(f"  let ({x}, {y}) := ({bytes_name}.extract 0 H, {bytes_name}.extract H {bytes_name}.size)")
+                env[x] = "raw0"
+                env[y] = "raw1"
+                i += 1
+                continue
+            c = cast_of(init, env) if env else None
+            if c is not None and st.pat.kind == "pident":
+                role, src = c
+                want = {"hdr": "raw0", "recs": "raw1"}[role]
+                if env[src] != want:
+                    raise Untranslatable(f"{'header' if role == 'hdr' else 'record'} cast applied to the wrong part of the buffer")
+                if role == "recs" and st.ty is not None and not re.search(r"\[\s*((U8)?Node\s*<|V\s*\])", st.ty):
+                    raise Untranslatable(f"record slice annotated as {st.ty}")
+                lines.append(f"  if ¬ ({src}.size = H) then failure" if role == "hdr" else f"  if ¬ (castOk R {src}.size) then failure")
+                lines.append(f"  let {st.pat.name} := {src}")
+                if st.pat.name != src:
+                    del env[src]
+                env[st.pat.name] = role
+                i += 1
+                continue
+            break
+        rest = stmts[i:]
+        if rest and not allow_rest:
+            raise Untranslatable(f"statement after the split/cast preamble (line {f.src_line}): the handle is expected to keep no derived state")
+        # the rest (tree from_bytes_mut: capacity re-synchronisation, translated by the tree profile) must not rebind the parts
+        def binds(n):
+            if n.kind == "let":
+                pats = [n.pat] if n.pat.kind == "pident" else list(getattr(n.pat, "items", []))
+                for p_ in pats:
+                    if getattr(p_, "name", None) in env:
+                        raise Untranslatable(f"`{p_.name}` is re-bound after the preamble")
+        def walk(node):
+            if isinstance(node, N):
+                binds(node)
+                for v in node.__dict__.values():
+                    walk(v)
+            elif isinstance(node, (list, tuple)):
+                for v in node:
+                    walk(v)
+        for st in rest:
+            walk(st)
+        tail = f.body.tail
+        if tail is None or tail.kind != "struct" or tail.path != ["Self"] or len(tail.fields) != 2:
+            raise Untranslatable("expected `Self { header, records }` as the result")
+        out = {}
+        for fname, fe in tail.fields:
+            if is_name(fe, env) and env[fe.path[0]] in ("hdr", "recs"):
+                out[env[fe.path[0]]] = fe.path[0]
+                continue
+            c = cast_of(fe, env)
+            if c is None:
+                raise Untranslatable(f"field `{fname}` is not one of the two parts of the buffer")
+            role, src = c
+            if env[src] != {"hdr": "raw0", "recs": "raw1"}[role]:
+                raise Untranslatable(f"field `{fname}`: cast applied to the wrong part of the buffer")
+            lines.append(f"  if ¬ ({src}.size = H) then failure" if role == "hdr" else f"  if ¬ (castOk R {src}.size) then failure")
+            out[role] = src
+        if set(out) != {"hdr", "recs"}:
+            raise Untranslatable("the handle does not keep exactly the header and the records")
+        lines.append(f"  return ({out['hdr']}, {out['recs']})")
+        nm = f"{prefix}_{f.name}"
+        more = " (preamble; the remaining statements are `from_bytes_mut` of the tree translation)" if rest else ""
+        return nm, f"/-- `{f.name}` of `{prefix}` (line {f.src_line}){more}. -/\ndef {nm} (H R : Nat) ({bytes_name} : ByteArray) :\n    Option (ByteArray × ByteArray) := do\n" + "\n".join(lines)
+
+    files = [
+        ("avl32", "src/collections/avl_tree.rs", True, True),
+        ("avl8", "src/collections/u8_avl_tree.rs", True, True),
+        ("hset", "src/collections/hash_set.rs", True, False),
+        ("aset", "src/collections/array_set.rs", False, False),
+    ]
+    def accessor(f, prefix):
+        """`get_field`/`get_register`: `self.<words>[<selector> as usize]`; `set_*`: `self.<words>[<selector> as usize] = value;`"""
+        arr = {"get_field": "fields", "set_field": "fields", "get_register": "registers", "set_register": "registers"}[f.name]
+
+        def is_word(e, sel):
+            return (e.kind == "index" and e.e.kind == "field" and e.e.name == arr and e.e.e.kind == "path" and e.e.e.path == ["self"]
+                    and e.idx.kind == "cast" and e.idx.ty.replace(" ", "") == "usize" and e.idx.e.kind == "path" and e.idx.e.path == [sel])
+        nm = f"{prefix}_{f.name}"
+        if f.name.startswith("get_"):
+            if len(f.params) != 1 or f.body.stmts or f.body.tail is None or not is_word(f.body.tail, f.params[0][0]):
+                raise Untranslatable(f"expected `self.{arr}[selector as usize]`")
+            sel = f.params[0][0]
+            return nm, f"/-- `{f.name}` of `{prefix}` (line {f.src_line}): the selected word; indexing panics outside the array. -/\ndef {nm} ({arr} : List Nat) ({sel} : Nat) : Option Nat :=\n  {arr}[{sel}]?"
+        st = f.body.stmts
+        a = st[0] if len(st) == 1 and f.body.tail is None else (f.body.tail if not st else None)
+        if len(f.params) != 2 or a is None or a.kind != "assign" or a.op != "=" or not is_word(a.lhs, f.params[0][0]) or not (a.rhs.kind == "path" and a.rhs.path == [f.params[1][0]]):
+            raise Untranslatable(f"expected `self.{arr}[selector as usize] = value`")
+        sel, val = f.params[0][0], f.params[1][0]
+        return nm, f"/-- `{f.name}` of `{prefix}` (line {f.src_line}): overwrites the selected word and nothing else. -/\ndef {nm} ({arr} : List Nat) ({sel} {val} : Nat) : Option (List Nat) :=\n  if {sel} < {arr}.length then some ({arr}.set {sel} {val}) else none"
+
+    for prefix, rel, has_len, mut_rest in files:
+        want = ([f"{prefix}_data_len"] if has_len else []) + [f"{prefix}_from_bytes", f"{prefix}_from_bytes_mut"]
+        if has_len:
+            want += [f"{prefix}_{a}" for a in ("get_field", "set_field", "get_register", "set_register")]
+        try:
+            src = open(os.path.join(REPO, rel)).read()
+            fns = scan_functions(src)
+        except (OSError, ParseError) as ex:
+            report["untranslatable"][f"<{rel}>"] = str(ex)
+            continue
+        seen = {}
+        for f in fns:
+            if f.body is None or f.name not in ("data_len", "from_bytes", "from_bytes_mut", "get_field", "set_field", "get_register", "set_register"):
+                continue
+            nm = f"{prefix}_{f.name}"
+            try:
+                if f.name == "data_len":
+                    if f.body.stmts or f.body.tail is None or len(f.params) != 1:
+                        raise Untranslatable("expected a single expression over one parameter")
+                    pn = f.params[0][0]
+                    text = f"/-- `data_len` of `{prefix}` (line {f.src_line}); `usize` arithmetic read as unbounded. -/\ndef {nm} (H R : Nat) ({pn} : Nat) : Nat :=\n  {expr(f.body.tail, [pn])}"
+                elif f.name.startswith(("get_", "set_")):
+                    _, text = accessor(f, prefix)
+                else:
+                    _, text = view(f, prefix, mut_rest and f.name == "from_bytes_mut")
+                # the macro-generated types share one definition; a second, textually different one is an error
+                body_only = re.sub(r"\(line \d+\)", "", text)
+                if nm in seen and seen[nm] != body_only:
+                    raise Untranslatable("two different definitions in one file")
+                if nm not in seen:
+                    seen[nm] = body_only
+                    defs.append(text)
+                    report["translated"].append(nm)
+            except (Untranslatable, ParseError, AttributeError, KeyError) as ex:
+                report["untranslatable"][nm] = str(ex)
+        for w in want:
+            if w not in report["translated"] and w not in report["untranslatable"]:
+                report["missing"].append(w)
+    bad = set(report["untranslatable"]) | set(report["missing"])
+    text = VIEWS_HEADER + "\n\n".join(d for d in defs if not any(d.find(f"def {b} ") >= 0 for b in bad)) + "\n\nend GenV\nend Stevia\n"
+    write_if_changed(os.path.join(GEN, "Views.lean"), text)
     return report
 
 
@@ -2490,6 +2746,7 @@ def main():
         gen_str("src/pod/pod_str.rs", "GenS", "PodStr.lean", PODSTR_FUNCS,
                 lambda f: not (f.name == "from" and "String" in "".join(t for _, t in f.params))),
         gen_pod(),
+        gen_views(),
     ]
     print(json.dumps({"translator": reports}))
 
